@@ -286,7 +286,7 @@ Definition cidr_match (c : cidr) (a : N) : bool := N.shiftr a (c_hb c) =? N.shif
 
 Definition m_ok (p : pkt) (m : mtch) : bool :=
   match m with
-  | MProto q => proto_eqb q (k_proto p)
+  | MProto q => proto_eqb (k_proto p) q
   | MDport neg n => xorb neg (k_dport p =? n)
   | MSport n => k_sport p =? n
   | MDports neg l => xorb neg (mem (k_dport p) l)
@@ -457,3 +457,39 @@ Definition spec_pre_with (sel : config -> pkt -> bool) (cfg : config) (fm : fam)
   else if is_tcp p && sel cfg p then VRedirect (in_port cfg) else VAccept.
 Definition spec_pre := spec_pre_with in_selected.
 Definition spec_pre_strict := spec_pre_with in_selected_strict.
+
+(* ------------------------------------------------------------------ the property in its own words *)
+
+(* an application packet: owned by neither a proxy uid nor a proxy gid *)
+Definition app_pkt (cfg : config) (p : pkt) : bool :=
+  negb (mem (k_uid p) (uids cfg)) && negb (mem (k_gid p) (gids cfg)).
+Definition proxy_pkt (cfg : config) (p : pkt) : bool :=
+  mem (k_uid p) (uids cfg) || mem (k_gid p) (gids cfg).
+
+(* loopback-interface traffic of the application that the owner blocks leave alone *)
+Definition app_lo_return (cfg : config) (p : pkt) : bool :=
+  cond_b cfg p && (negb (is_nil (uids cfg)) || negb (is_nil (gids cfg))).
+
+(* application outbound TCP is redirected to the proxy's outbound port iff ... *)
+Definition should_redirect_out (cfg : config) (fm : fam) (p : pkt) : bool :=
+  negb (mem (k_out p) (excl_ifs cfg)) &&                       (* not an excluded interface *)
+  negb (mem (k_dport p) (out_pexc cfg)) &&                     (* not an excluded port *)
+  negb ((k_out p =? lo) && cidr_match (f_pass fm) (k_src p)) &&(* not the inbound passthrough bind address *)
+  negb (app_lo_return cfg p) &&                                (* not app-to-itself over lo *)
+  negb (group_skipped cfg p) &&                                (* owner group is captured *)
+  negb (dns_hit cfg fm p) &&                                   (* not DNS taken by the agent *)
+  negb (cidr_match (f_loop fm) (k_dst p)) &&                   (* not localhost *)
+  negb (in_any (k_dst p) (f_exc fm)) &&                        (* not in an excluded range *)
+  (mem (k_dport p) (out_pinc cfg) || f_inc_star fm || in_any (k_dst p) (f_inc fm)). (* included *)
+
+(* v4 and v6 packets that fall in the same classes of the configuration *)
+Definition same_class (cfg : config) (p4 p6 : pkt) : Prop :=
+  let f4 := fam_of cfg false in
+  let f6 := fam_of cfg true in
+  k_proto p4 = k_proto p6 /\ k_dport p4 = k_dport p6 /\ k_in p4 = k_in p6 /\ k_out p4 = k_out p6 /\
+  k_uid p4 = k_uid p6 /\ k_gid p4 = k_gid p6 /\
+  cidr_match (f_pass f4) (k_src p4) = cidr_match (f_pass f6) (k_src p6) /\
+  cidr_match (f_loop f4) (k_dst p4) = cidr_match (f_loop f6) (k_dst p6) /\
+  in_any (k_dst p4) (f_exc f4) = in_any (k_dst p6) (f_exc f6) /\
+  in_any (k_dst p4) (f_inc f4) = in_any (k_dst p6) (f_inc f6) /\
+  dns_hit cfg f4 p4 = dns_hit cfg f6 p6.
